@@ -145,9 +145,38 @@ class Executor:
         st.next_ref = st.next_ref + 1
         return r
 
+    def ref_paths(self, t, want, z):
+        """SMT terms of the references of type `want` stored inside a value z of type t."""
+        if t == want:
+            return [z]
+        out = []
+        if isinstance(t, Tup):
+            for i, e in enumerate(t.elts):
+                out += self.ref_paths(e, want, t.proj(z, i))
+        # Optional references are not tracked here (none of the verified containers stores them)
+        return out
+
+    def unshared(self, st, new):
+        """Well-typed heap: a freshly allocated reference is stored nowhere yet."""
+        t = new.t
+        r, i = fresh("r", z3.IntSort()), fresh("i", z3.IntSort())
+        for key in list(set(st.heap) | set(self.heap.initial)):
+            arr = st.heap.get(key, self.heap.initial.get(key))
+            if key[0] == "elem":
+                for p in self.ref_paths(key[2], t, z3.Select(z3.Select(arr, r), i)):
+                    st.assume(z3.ForAll([r, i], p != new.z))
+            elif key[0] == "val":
+                k = fresh("k", key[2].sort())
+                for p in self.ref_paths(key[3], t, z3.Select(z3.Select(arr, r), k)):
+                    st.assume(z3.ForAll([r, k], p != new.z))
+            elif key[0] == "fld":
+                for p in self.ref_paths(key[3], t, z3.Select(arr, r)):
+                    st.assume(z3.ForAll([r], p != new.z))
+
     def alloc(self, st, t):
         """Allocate an empty container / blank object of mutable type t."""
         r = self.new_ref(st)
+        self.unshared(st, Val(t, r))
         if isinstance(t, List):
             n = t.name()
             self.heap.set(st, ("len", n), z3.Store(self.heap.get(st, ("len", n)), r, 0))
@@ -669,6 +698,10 @@ class Executor:
         for tup, s in self.ev_Tuple(e, st):
             yield ("listlit", tup), s
 
+    def ev_Set(self, e, st):
+        for tup, s in self.ev_Tuple(e, st):
+            yield ("setlit", tup), s
+
     def ev_JoinedStr(self, e, st):
         yield PyConst("<fstring>"), st
 
@@ -797,6 +830,19 @@ class Executor:
     def binop(self, op, l, r, st):
         if isinstance(l, Unknown) or isinstance(r, Unknown):
             return Unknown("binop")
+        if isinstance(op, ast.Mult) and isinstance(l, tuple) and l and l[0] == "listlit" and len(l[1].items) == 1:
+            # [x] * n : a new list of n copies of x
+            want = getattr(self, "expect_type", None)
+            x = l[1].items[0]
+            if not isinstance(want, List):
+                x = self.guess_tuple(x, st)
+                want = List(x.t)
+            x = self.coerce(x, want.elt, st)
+            n = self.as_int(r, st).z
+            lst = self.alloc(st, want)
+            self.list_set_arr(st, lst, z3.K(z3.IntSort(), x.z))
+            self.list_set_len(st, lst, z3.If(n > 0, n, 0))
+            return lst
         # sequence concatenation
         lt = l.t if isinstance(l, Val) else None
         rt = r.t if isinstance(r, Val) else None
